@@ -1,3 +1,6 @@
 #!/bin/bash
-# run the repo's pinned suite; print pass/fail counts (baseline: 678 passed, 3 failed)
+# run the repo's pinned suite; print pass/fail counts (baseline: 678 passed, 3 failed); leaves /repo as it was
+# (the suite rewrites the tracked txtorcon.log and leaves test.test_*/ scratch directories behind)
 cd /repo && timeout 900 /venv/bin/python -m pytest -q -p no:cacheprovider --timeout=30 2>&1 | tail -6
+git -C /repo checkout -- txtorcon.log 2>/dev/null
+git -C /repo clean -fdq -- 'test.test_*' 2>/dev/null
